@@ -192,7 +192,7 @@ ChiPat(bc, n, cp) ==
     IF bc = "finite" THEN
         (CASE n = 2 -> IF cp = 1 THEN <<1, 2, 1>> ELSE <<1, 3, 1>>
            [] n = 3 -> IF cp = 1 THEN <<1, 2, 3, 1>> ELSE <<1, 2, 2, 1>>
-           [] n = 4 -> IF cp = 1 THEN <<1, 2, 3, 2, 1>> ELSE <<1, 2, 2, 2, 1>>
+           [] n = 4 -> IF cp = 1 THEN <<1, 2, 3, 2, 1>> ELSE <<1, 2, 1, 2, 1>>
            [] OTHER -> <<1, 1>>)
     ELSE IF bc = "segment" THEN
         (CASE n = 2 -> IF cp = 1 THEN <<2, 3, 2>> ELSE <<1, 2, 2>>
@@ -335,8 +335,10 @@ CoverPsi(n, dims, locals, imap) ==
         IN A(Len(locals)))
 CoverMaps(n, mp) ==
     CASE n = 3 -> (IF mp = 1 THEN <<<<0, 1>>, <<2>>>> ELSE <<<<0, 2>>, <<1>>>>)
-      [] n = 4 -> (CASE mp = 1 -> <<<<0, 1>>, <<2, 3>>>> [] mp = 2 -> <<<<0, 2>>, <<1, 3>>>> [] OTHER -> <<<<0, 3>>, <<1, 2>>>>)
+      [] n = 4 -> (CASE mp = 1 -> <<<<0, 1>>, <<2, 3>>>> [] mp = 2 -> <<<<0, 2>>, <<1, 3>>>> [] mp = 3 -> <<<<0, 3>>, <<1, 2>>>>
+                     [] OTHER -> <<<<1, 2, 0>>, <<3>>>>)      \* local site 0 -> site 1, 1 -> 2, 2 -> 0: needs permute_sites
       [] OTHER -> <<<<0, 1>>>>
+Sorted(m) == \A k \in 1..(Len(m) - 1) : m[k] < m[k + 1]
 Covering(n, mp, kp, v, cx) ==
     /\ phase = "init" /\ "covering" \in Ctors /\ n <= MaxL /\ n >= 2
     /\ phase' = "live" /\ nops' = 0
@@ -348,7 +350,8 @@ Covering(n, mp, kp, v, cx) ==
            P == CoverPsi(n, [i \in 1..n |-> Dim(kinds[i])], locals, imap)
        IN /\ Homogeneous(kp)
           /\ ~TIsZero(P) /\ AbsLE(P, 400)
-          /\ R' = NoRep /\ psi' = P /\ nrm' = 1 /\ mode' = "raw"
+          /\ R' = NoRep /\ psi' = P /\ nrm' = 1
+          /\ mode' = IF \A q \in 1..Len(imap) : Sorted(imap[q]) THEN "raw" ELSE "loose"   \* unsorted: permute_sites (SVD)
           /\ last' = [op |-> "from_product_mps_covering", c |-> <<n, mp, kp, v, cx>>]
           /\ Rec([op |-> "from_product_mps_covering", n |-> n, imap |-> imap, locals |-> lreps])
 
@@ -456,7 +459,7 @@ DoProduct == phase = "init" /\ \E bc \in BCs, n \in 1..MaxL, kp \in 1..5, cn \in
 DoLatProduct == phase = "init" /\ \E bc \in BCs \ {"segment"}, nx \in 1..MaxL, nu \in 1..2, tile \in 1..2, kp \in {1, 3, 5}, v \in 0..1 :
             /\ nx * nu >= 2 /\ (CaseNo(BcNum(bc), nx, nu, kp, 0, tile, v, 4) + Seed) % 13 = 0 /\ LatProduct(bc, nx, nu, tile, kp, v)
 DoSinglets == phase = "init" /\ \E n \in 2..MaxL, pp \in 1..3, ls \in 0..1 : (pp = 3 => n = 4) /\ Singlets(n, pp, ls)
-DoCovering == phase = "init" /\ \E n \in 2..MaxL, mp \in 1..3, kp \in {1, 4}, v \in 0..1, cx \in 0..1 : (mp = 3 => n = 4) /\ Covering(n, mp, kp, v, cx)
+DoCovering == phase = "init" /\ \E n \in 2..MaxL, mp \in 1..4, kp \in {1, 4}, v \in 0..1, cx \in 0..1 : (mp >= 3 => n = 4) /\ Covering(n, mp, kp, v, cx)
 DoFromFull == phase = "init" /\ \E bc \in BCs, n \in 2..MaxL, cp \in 1..2, kp \in 1..5, cn \in 0..2, v \in 0..1, cx \in 0..1,
                  f \in {"none", "A", "B", "C", "G"}, nz \in BOOLEAN : FromFull(bc, n, cp, kp, cn, v, cx, f, nz)
 DoFromBflat == phase = "init" /\ \E bc \in BCs, n \in 2..MaxL, cp \in 1..2, kp \in 1..5, cn \in 0..2, fp \in 1..6, v \in 0..1, cx \in 0..1 :
